@@ -44,6 +44,10 @@ type c18ExprCase struct {
 	// InSeq: the case was run as part of the sequence of configurations 0,1,2,0 in one process
 	// (replay repeats the whole sequence)
 	InSeq bool `json:"in_sequence,omitempty"`
+	// Via: 0 the expression is written in the tag; 1 the tag is value:"${ex}" and the configuration
+	// holds the text "#{expr}" under ex; 2 the tag is prop:"ex" (C16: the tag is processed as if it
+	// had been written with the replacement text)
+	Via int `json:"via,omitempty"`
 }
 
 var c18Cfgs = []map[string]string{
@@ -141,19 +145,21 @@ func c18Expr(c *core.Ctx) {
 		ints, bools, strs := c18Exprs(c.Thorough())
 		// Cfg -1: the three configurations one after the other in the same process, then the first
 		// again: the result must follow the configuration of the current container
-		for _, e := range ints {
-			if !yield(c18ExprCase{Expr: e, Typ: "int", Cfg: -1}) {
-				return
+		for via := 0; via < 3; via++ {
+			for _, e := range ints {
+				if !yield(c18ExprCase{Expr: e, Typ: "int", Cfg: -1, Via: via}) {
+					return
+				}
 			}
-		}
-		for _, e := range bools {
-			if !yield(c18ExprCase{Expr: e, Typ: "bool", Cfg: -1}) {
-				return
+			for _, e := range bools {
+				if !yield(c18ExprCase{Expr: e, Typ: "bool", Cfg: -1, Via: via}) {
+					return
+				}
 			}
-		}
-		for _, e := range strs {
-			if !yield(c18ExprCase{Expr: e, Typ: "string", Cfg: -1}) {
-				return
+			for _, e := range strs {
+				if !yield(c18ExprCase{Expr: e, Typ: "string", Cfg: -1, Via: via}) {
+					return
+				}
 			}
 		}
 	}
@@ -182,7 +188,12 @@ func c18ExprOne(c *core.Ctx, cs c18ExprCase, types map[string]reflect.Type) {
 	{
 		cfg := c18Cfgs[cs.Cfg]
 		doc := fmt.Sprintf("n1: %s\nn2: %s\ns: %s\nk: %s\n", cfg["n1"], cfg["n2"], cfg["s"], cfg["k"])
-		st := reflect.StructOf([]reflect.StructField{{Name: "X", Type: types[cs.Typ], Tag: reflect.StructTag(fmt.Sprintf(`value:"#{%s}"`, cs.Expr))}})
+		tag := fmt.Sprintf(`value:"#{%s}"`, cs.Expr)
+		if cs.Via > 0 {
+			doc += "ex: \"#{" + strings.NewReplacer(`\`, `\\`, `"`, `\"`).Replace(cs.Expr) + "}\"\n"
+			tag = []string{"", `value:"${ex}"`, `prop:"ex"`}[cs.Via]
+		}
+		st := reflect.StructOf([]reflect.StructField{{Name: "X", Type: types[cs.Typ], Tag: reflect.StructTag(tag)}})
 		h := reflect.New(st)
 		o := scen.Start(scen.StartSpec{Ch: envx.Fixed("", nil), Comps: []any{h.Interface()}, Opts: []app.SettingOption{app.SetConfigLoader(loader.NewRawLoader([]byte(doc)))}})
 		want, werr := expr.Eval(c18Subst(cs.Expr, cfg), nil)
@@ -195,6 +206,9 @@ func c18ExprOne(c *core.Ctx, cs c18ExprCase, types map[string]reflect.Type) {
 		}
 		key := "C18/expr/" + core.Hash(cs)
 		desc := fmt.Sprintf("value:\"#{%s}\" on a %s field with n1=%s n2=%s s=%s k=%s", cs.Expr, cs.Typ, cfg["n1"], cfg["n2"], cfg["s"], cfg["k"])
+		if cs.Via > 0 {
+			desc = fmt.Sprintf("%s on a %s field with ex=\"#{%s}\" n1=%s n2=%s s=%s k=%s", tag, cs.Typ, cs.Expr, cfg["n1"], cfg["n2"], cfg["s"], cfg["k"])
+		}
 		got := h.Elem().Field(0).Interface()
 		switch {
 		case o.Panic != "" || o.Abort != "":
@@ -227,7 +241,7 @@ func c18ExprOne(c *core.Ctx, cs c18ExprCase, types map[string]reflect.Type) {
 				c.Report(key, "wrong-result", fmt.Sprintf("%s: field holds %#v, evaluating the substituted expression gives %#v", desc, got, want), cs)
 				return
 			}
-			c.Outcome("as-direct/" + cs.Typ)
+			c.Outcome("as-direct/" + cs.Typ + []string{"", "/via-placeholder", "/via-prop"}[cs.Via])
 			if c.S.Programs%500 == 1 {
 				c.Sample(map[string]any{"case": cs, "substituted": c18Subst(cs.Expr, cfg), "bound": got})
 			}
